@@ -8,12 +8,15 @@ range of its format, unused fields zero, `jal`: `aux` the even absolute target a
 `imm = sextImm 21 (aux - addr)`; CSR forms: `aux ≥ 0`. `canon_of_instantiate` shows that these are
 exactly the objects the assembler builds from numeric operands.
 
-FINDING (second sentence of C14 is false as stated): a branch or jump to `label+0x<odd>` is
-assembled without a parity check, its printed form has an odd numeric operand, and re-assembling that
-is rejected with `ParserOddImmediateException` (`listing_not_reassemblable_odd_offset`; confirmed on
-the Python code with `beq x0, x0, l+0x1`). `listing_fixpoint` is the statement that does hold.
+An odd label displacement (`beq x0, x0, l+0x1`) used to be assembled without a parity check and printed
+a form that does not re-assemble; since the repair of `_convert_label_or_imm` it is rejected with
+`ParserOddImmediateException` (C04 `branch_label_odd_rejected`), and every object the assembler builds —
+label operands included — is canonical (`canon_of_instantiate`), so the listing of every built program
+whose instructions can be printed re-assembles to the same program (`loaded_listing_fixpoint`, and
+`built_listing_fixpoint` for the instruction pass alone). `grammar_sound` shows that the trees the line
+grammar returns satisfy `GrammarForm`.
 -/
-import ArchSim.Lemmas.C14Canon
+import ArchSim.Lemmas.C14Loaded
 namespace ArchSim.Props.C14
 open ArchSim ArchSim.PP ArchSim.Rv ArchSim.Asm ArchSim.Lemmas.C14
 
@@ -66,12 +69,21 @@ theorem repr_roundtrip_tree (i : Instr) (addr : Int) (hc : i.Canon addr) (hf : i
   obtain ⟨it, hp, hb⟩ := roundtrip_core i addr hc hf
   exact ⟨_, hp, rfl, hb⟩
 
-/-- The canonical instructions are what the assembler builds: every instruction object
-    `instantiate` produces from a numeric-operand syntax tree of the grammar (`NumericForm`: mnemonic
-    of the alternative, registers below 32, csr number not negative) is canonical at its address —
-    out-of-range immediates are wrapped by the constructors into the canonical range. -/
+/-- The canonical instructions are what the assembler builds: every instruction object `instantiate`
+    produces, at an even address and for any label table, from a syntax tree of the grammar
+    (`GrammarForm`: mnemonic of the alternative, registers below 32 — numeric AND label operands) is
+    canonical at its address, provided it is printable (`Printable`: not `fence`, csr number not
+    negative, `jal` target of at most 4300 digits). Out-of-range immediates are wrapped by the
+    constructors into the canonical range; a label displacement is even because odd ones are rejected. -/
 theorem canon_of_instantiate (ls : Labels) (addr : Int) (k : Nat) (line : String) (pi : PInstr) (i : Instr)
-    (hg : NumericForm pi) (h : instantiate ls addr k line pi = .ok i) : i.Canon addr :=
+    (hg : GrammarForm pi) (haddr : addr % 2 = 0) (h : instantiate ls addr k line pi = .ok i)
+    (hp : Printable i) : i.Canon addr :=
+  instantiate_canon_all ls addr k line pi i hg haddr h hp
+
+/-- The numeric-operand case with the conditions stated on the tree (`NumericForm`: csr number not
+    negative, absolute `jal` target of at most 4300 digits; `fence` allowed), at any address. -/
+theorem canon_of_instantiate_numeric (ls : Labels) (addr : Int) (k : Nat) (line : String) (pi : PInstr)
+    (i : Instr) (hg : NumericForm pi) (h : instantiate ls addr k line pi = .ok i) : i.Canon addr :=
   instantiate_canon ls addr k line pi i hg h
 
 /-- Listing fixpoint. For a program of at most 4096 canonical non-`fence` instructions, the k-th at
@@ -89,18 +101,46 @@ theorem listing_fixpoint (s : St) (prog : List Instr) (hlen : prog.length ≤ 40
     obtain ⟨k, hk, rfl⟩ := List.getElem_of_mem hi
     exact lineOk_repr _ _ (hc k hk).1
 
-/-- FINDING: the listing of a loaded program need not re-assemble. The object the assembler builds
-    for `beq x0, x0, l+0x1` (label `l` at address 4, instruction at address 0) prints as
-    `beq x0, x0, 5`; that text is tokenized as a numeric branch, which the back end rejects with
-    `ParserOddImmediateException` at the same address, for every label table. -/
-theorem listing_not_reassemblable_odd_offset :
-    ∃ (ls : Labels) (pi : PInstr) (i : Instr),
-      instantiate ls 0 1 "beq x0, x0, l+0x1" pi = .ok i ∧ i.op ≠ .fence ∧
-      ∃ tok, parseLine i.repr.toList = some tok ∧
-        ∀ (ls' : Labels) (k : Nat) (line : String),
-          buildInstrs ls' [(k, line, tok.item)] 0 = .error (.parser "ParserOddImmediateException" k line) :=
-  ⟨[("l", 4)], .btypeLabel "beq" 0 0 "l" 1, oddBranch, oddBranch_built, by decide, _, oddBranch_parse,
-    fun ls' k line => oddBranch_rebuild ls' k line⟩
+/-- Listing fixpoint for built programs. Let `prog` be what the instruction pass builds from address 0,
+    with any label table, from an expanded listing whose grouped entries are trees of the grammar
+    (label operands included). If `prog` fits the instruction memory and its instructions are printable
+    (no `fence`, no negative csr number, `jal` targets of at most 4300 digits), then loading the text made
+    of the printed forms joined by newlines succeeds and stores exactly `prog` again. -/
+theorem built_listing_fixpoint (s : St) (ls : Labels) (es : List TEntry) (prog : List Instr)
+    (hg : ∀ e ∈ es, ∀ pi, e.2.2 = .grp pi → GrammarForm pi)
+    (h : buildInstrs ls es 0 = .ok prog) (hlen : prog.length ≤ 4096) (hp : ∀ i ∈ prog, Printable i) :
+    (load s (String.intercalate "\n" (prog.map Instr.repr))).err = none ∧
+    (load s (String.intercalate "\n" (prog.map Instr.repr))).st.imem.prog = prog :=
+  built_listing s ls es prog hg h hlen hp
+
+/-- Soundness of the line grammar: whenever `parseLine` returns a grouped instruction, its syntax tree is
+    a `GrammarForm` — the mnemonic is one of the symbols of the alternative that produced it and every
+    register number is below 32 (the hypothesis of `canon_of_instantiate` / `built_listing_fixpoint`). -/
+theorem grammar_sound (l : List Char) (t : Tok) (pi : PInstr) (h : parseLine l = some t)
+    (hpi : t.item = .grp pi) : GrammarForm pi :=
+  parseLine_form h pi hpi
+
+/-- Every successfully loaded program is built from trees of the grammar: there are a label table and an
+    expanded listing with only `GrammarForm` trees from which the instruction pass, started at address 0,
+    builds exactly the stored program; and the program has at most 4096 instructions. -/
+theorem loaded_program_built (s : St) (text : String) (h : (load s text).err = none) :
+    ∃ ls es, (∀ e ∈ es, ∀ pi, e.2.2 = .grp pi → GrammarForm pi) ∧
+      buildInstrs ls es 0 = .ok (load s text).st.imem.prog ∧ (load s text).st.imem.prog.length ≤ 4096 :=
+  load_ok_built s text h
+
+/-- Listing fixpoint for loaded programs (the second sentence of C14). If `load s text` succeeds with
+    program `prog` — ANY source text: labels, `label+offset` operands, pseudo-instructions, data — and
+    every instruction of `prog` is printable (no `fence`, no csr instruction with a negative csr number,
+    `jal` targets of at most 4300 decimal digits), then loading the listing of `prog` (the printed forms
+    joined by newlines), in any simulator state `s'`, succeeds and stores exactly `prog` again. -/
+theorem loaded_listing_fixpoint (s s' : St) (text : String) (prog : List Instr)
+    (h : (load s text).err = none) (hprog : (load s text).st.imem.prog = prog)
+    (hp : ∀ i ∈ prog, i.op ≠ .fence ∧ (i.op.ty = .csr ∨ i.op.ty = .csri → 0 ≤ i.aux) ∧
+      (i.op = .jal → i.aux.natAbs < 10 ^ 4300)) :
+    (load s' (String.intercalate "\n" (prog.map Instr.repr))).err = none ∧
+    (load s' (String.intercalate "\n" (prog.map Instr.repr))).st.imem.prog = prog := by
+  subst hprog
+  exact loaded_listing s s' text h hp
 
 /-! ### non-vacuity -/
 
@@ -128,8 +168,55 @@ example :
   have : k = 0 ∨ k = 1 ∨ k = 2 := by simp [prog] at hk; omega
   rcases this with rfl | rfl | rfl <;> simp [prog, Instr.Canon, Op.ty]
 
-/-- A numeric-operand syntax tree of the grammar (hypothesis of `canon_of_instantiate`). -/
+/-- A numeric-operand syntax tree of the grammar (hypothesis of `canon_of_instantiate_numeric`). -/
 example : NumericForm (.rri "addi" 1 2 5000) := by
   simp [NumericForm, normalIMn]
+
+/-- Label-operand trees of the grammar (hypothesis of `canon_of_instantiate`). -/
+example : GrammarForm (.btypeLabel "beq" 0 0 "l" 4) ∧ GrammarForm (.jalLabel 1 "l" 0) := by
+  simp [GrammarForm, bMn]
+
+/-- Hypotheses of `canon_of_instantiate` for `jal x1, l` at address 8 with `l` at 0: built, printable. -/
+example : instantiate [("l", 0)] 8 3 "jal x1, l" (.jalLabel 1 "l" 0) = .ok { op := .jal, rd := 1, imm := -8 } ∧
+    Printable { op := .jal, rd := 1, imm := -8 } :=
+  ⟨by rfl, by decide, by simp [Op.ty], fun _ => small_natAbs _ (by decide) (by decide)⟩
+
+/-- Hypotheses of `built_listing_fixpoint` for the listing `l: / beq x0, x0, l+0x4 / jal x1, l`. -/
+example :
+    let es : List TEntry := [(1, "l:", .str "l"), (2, "beq x0, x0, l+0x4", .grp (.btypeLabel "beq" 0 0 "l" 4)),
+      (3, "jal x1, l", .grp (.jalLabel 1 "l" 0))]
+    let prog : List Instr := [{ op := .beq, imm := 4 }, { op := .jal, rd := 1, imm := -4 }]
+    (∀ e ∈ es, ∀ pi, e.2.2 = .grp pi → GrammarForm pi) ∧ buildInstrs [("l", 0)] es 0 = .ok prog ∧
+      prog.length ≤ 4096 ∧ ∀ i ∈ prog, Printable i := by
+  intro es prog
+  refine ⟨?_, by rfl, by decide, ?_⟩
+  · intro e he pi hpi
+    simp only [es, List.mem_cons, List.not_mem_nil, or_false] at he
+    rcases he with rfl | rfl | rfl
+    · cases hpi
+    · cases hpi; simp [GrammarForm, bMn]
+    · cases hpi; simp [GrammarForm]
+  · intro i hi
+    simp only [prog, List.mem_cons, List.not_mem_nil, or_false] at hi
+    rcases hi with rfl | rfl
+    · exact ⟨by decide, by simp [Op.ty], fun h => by cases h⟩
+    · exact ⟨by decide, by simp [Op.ty], fun _ => small_natAbs _ (by decide) (by decide)⟩
+
+/-- Hypotheses of `loaded_listing_fixpoint`: the listing text of the three-instruction program above loads
+    without error (by `listing_fixpoint`) and its program is printable. -/
+example (s : St) :
+    let prog : List Instr := [{ op := .addi, rd := 1, rs1 := 0, imm := -5 }, { op := .ecall },
+      { op := .beq, rs1 := 1, rs2 := 2, imm := -8 }]
+    let text := String.intercalate "\n" (prog.map Instr.repr)
+    (load s text).err = none ∧ (load s text).st.imem.prog = prog ∧ ∀ i ∈ prog, Printable i := by
+  intro prog text
+  have hfix := listing_fixpoint s prog (by decide) (by
+    intro k hk
+    have : k = 0 ∨ k = 1 ∨ k = 2 := by simp [prog] at hk; omega
+    rcases this with rfl | rfl | rfl <;> simp [prog, Instr.Canon, Op.ty])
+  refine ⟨hfix.1, hfix.2, ?_⟩
+  intro i hi
+  simp only [prog, List.mem_cons, List.not_mem_nil, or_false] at hi
+  rcases hi with rfl | rfl | rfl <;> exact ⟨by decide, by simp [Op.ty], fun h => by cases h⟩
 
 end ArchSim.Props.C14
